@@ -14,6 +14,7 @@ RULE = ("(a) connection part: scripted connections of 1..3 requests with Pending
         "0..4 tokens and the last token drop forced into every window of WaitGroupFuture::poll (before the upgrade, between upgrade and waker "
         "registration, between registration and the drop of the temporary reference, after the poll) through the cfg(fastcgi_server_verif) hook; (c) wg_race: real two-thread races of one poll against the last drop, "
         "10^5 trials each with the timing steered towards coincidence (a supporting search with a sound oracle: it can miss, it cannot raise a false alarm). "
+        "(d) tok_run histories with several clones shut down separately, idle and in-flight connections, and clients of stalled connections draining their sockets after the shutdown (every request in flight completes, then the connection ends; each clone's shutdown future completes exactly when its last token is gone). "
         "Oracle: every started request is completed with its EndRequest, no handler starts in a scheduling step >= k, the task returns, the shutdown "
         "future is not ready while a token lives and ready (with a wake) afterwards. Non-trivial: every case; distinct = distinct case lines.")
 ASSUMPTIONS = C07.ASSUMPTIONS + ["Arc/Weak/AtomicWaker are modelled by their documented atomic behaviour; the hook only adds scheduling points"]
